@@ -237,3 +237,32 @@ def construction_entries(facts, adt_path):
                 continue
             out[name] = out.get(name, 0) + n
     return out
+
+
+def flow_walk(st, start, is_cut, forbidden, tags=()):
+    """F6 'flows only through': walk the definition DAG (terms and affine forms) from `start` vids toward the
+    inputs, stopping at vids for which is_cut holds.  Returns (reached_forbidden, opaque) vid sets."""
+    bad, opaque = set(), set()
+    seen = set()
+    work = [v for v in start if isinstance(v, int)]
+    while work:
+        v = work.pop()
+        if v in seen or v in D.CONSTVAL:
+            continue
+        seen.add(v)
+        if is_cut(v):
+            continue
+        if v in forbidden:
+            bad.add(v)
+            continue
+        t = D.TERM.get(v)
+        a = D.AFF.get(v)
+        nxt = []
+        if t is not None and t[0] != 'const':
+            nxt += [o for o in t[1:] if isinstance(o, int)]     # structural provenance first
+        elif a is not None:
+            nxt += [y for y in a.co if y != v]
+        if not nxt and v not in D.NAME:
+            opaque.add(v)
+        work.extend(nxt)
+    return bad, opaque
